@@ -166,6 +166,16 @@ class Cx:
     def loc(self, node, prog=None):
         return (prog or self.prog).loc(node)
 
+    def callsite_args(self, caller, caller_args, callee_name, prog=None, key='callsite'):
+        """the argument terms a helper is given at its only call site in `caller`: rules about the helper's body are written in
+           the caller's coordinates ($state.., $target), whatever the helper's own parameter list looks like (a refactoring that
+           passes `&mut state.users[target]`, `&mut state.operators_count` .. instead of `&mut state` changes nothing)"""
+        w = self.walk(caller, args=caller_args, prog=prog, key=key)
+        calls = [e for e in w.events if e.kind == 'call' and e.data.get('local') and e.data['name'] == callee_name]
+        if len(calls) != 1:
+            raise AnchorLost('%s: expected exactly one call of %s, found %d' % (caller, callee_name, len(calls)))
+        return list(calls[0].data['args'])
+
     def rule(self, *a, **kw):
         return self.check.rule(*a, **kw)
 
